@@ -1,6 +1,74 @@
-import BR.Model.Disk
+import BR.Lemmas.DiskProxy
+import BR.Lemmas.Toy
+import BR.Bridge.Disk
+/-!
+# C12 — proxy back end: faithful read/write-through, faults degrade to miss or error (partial)
+
+Model M4: the back end is an adversarial environment (`ProxyGet`: not found / error / a stream with
+any content, any announced size, optionally failing part-way; `Contains`: any answer).
+**Partial**: the transport code of the concrete back ends (net/http, grpc-go, minio, azure SDK) and
+their connection handling are outside the model; their key mapping is M3/C20.
+-/
 namespace BR.Props.C12
-open BR.Disk
-theorem placeholder : emptyZstdBlob.length = 9 := by decide
-#print axioms placeholder
+open BR.Disk BR.Lru BR.CasBlob
+
+/-- **a hit from the back end carries exactly what the back end sent, with the announced size** —
+and only when the answer was complete (no fault), the size known, within `max_proxy_blob_size` and
+compatible with the request.  For entries stored raw the number of bytes received must equal the
+announced size; compressed CAS blobs must pass the header check (`serveFetched` uses M2's readers,
+for which C02 applies). -/
+theorem proxy_hit_content (C : Codec) (d : Disk) (l : Lru) (kind : Kind) (hash : String) (size offset : Int)
+    (zstd : Bool) (pg : ProxyGet) (rnd : String) (hit : Hit)
+    (hh : (fetchFromProxy C d l kind hash size offset zstd pg rnd).2 = .hit hit) :
+    ∃ s fs, pg = .found s fs ∧ s.fault = false ∧ 0 ≤ fs ∧ fs ≤ d.cfg.maxProxyBlobSize ∧
+      isSizeMismatch size fs = false ∧ hit.size = fs ∧
+      serveFetched C d.cfg kind s.data fs offset zstd = some hit ∧
+      ((kind ≠ .cas ∨ d.cfg.mode = .identity) → (s.data.length : Int) = fs ∧
+        hit.data = (if zstd then legacyZstd C (s.data.drop offset.toNat) else s.data.drop offset.toNat)) :=
+  fetch_hit_only_if C d l kind hash size offset zstd pg rnd hit hh
+
+/-- **faults surface only as a miss or an error** -/
+theorem proxy_fault_miss_or_error (C : Codec) (d : Disk) (l : Lru) (kind : Kind) (hash : String)
+    (size offset : Int) (zstd : Bool) (rnd : String) (s : Stream) (fs : Int) :
+    (fetchFromProxy C d l kind hash size offset zstd .error rnd).2 = .err .e500 ∧
+    (fetchFromProxy C d l kind hash size offset zstd .notFound rnd).2 = .miss ∧
+    (fs > d.cfg.maxProxyBlobSize → (fetchFromProxy C d l kind hash size offset zstd (.found s fs) rnd).2 = .miss) ∧
+    (fs ≤ d.cfg.maxProxyBlobSize → (isSizeMismatch size fs = true ∨ fs < 0) →
+      (fetchFromProxy C d l kind hash size offset zstd (.found s fs) rnd).2 = .miss) ∧
+    (fs ≤ d.cfg.maxProxyBlobSize → isSizeMismatch size fs = false → 0 ≤ fs → s.fault = true →
+      (fetchFromProxy C d l kind hash size offset zstd (.found s fs) rnd).2 = .err .e500) :=
+  fetch_fault_no_hit C d l kind hash size offset zstd rnd s fs
+
+/-- **no fault poisons the cache or leaks reserved space or files**: whatever the back end answers,
+`get` keeps the accounting/directory invariant and returns its reservation. -/
+theorem proxy_fault_no_leak (C : Codec) {d : Disk} (h : DiskInv d) (kind : Kind) (hash : String)
+    (size offset : Int) (zstd : Bool) (pg : ProxyGet) (rnd : String)
+    (hfresh : ∀ legacy sz, fileLocation kind legacy hash sz rnd ∉ d.files.map Prod.fst) :
+    DiskInv (get C d kind hash size offset zstd pg rnd).1 ∧
+    (get C d kind hash size offset zstd pg rnd).1.lru.res = d.lru.res :=
+  ⟨inv_get C h kind hash size offset zstd pg rnd hfresh, res_getOp C h kind hash size offset zstd pg rnd⟩
+
+/-- **every accepted upload is handed to the back end once, in its on-disk form** -/
+theorem put_forwards_once (C : Codec) (H : Bytes → String) (d : Disk) (kind : Kind) (hash : String)
+    (size : Int) (s : Stream) (rnd : String) (hp : d.cfg.hasProxy = true)
+    (hok : (put C H d kind hash size s rnd).2 = .ok) (hns : ¬ (kind = .cas ∧ size = 0 ∧ hash = emptySha256)) :
+    ∃ content ondisk, writeFile C H d.cfg kind hash size s = some (content, ondisk) ∧
+      (put C H d kind hash size s rnd).1.proxyPuts =
+        d.proxyPuts ++ [{ kind := kind, hash := hash, logicalSize := size, sizeOnDisk := ondisk, content := content }] :=
+  BR.Disk.put_forwards_once C H d kind hash size s rnd hp hok hns
+
+/-! non-vacuity: a short stream without error is not a hit; the complete one is -/
+def hA : String := "aaaaaaaaaaaaaaaaaaaaaaaaaaaaaaaaaaaaaaaaaaaaaaaaaaaaaaaaaaaaaaaa"
+def cfgP : Cfg := { mode := .identity, maxBlobSize := 1000000, maxProxyBlobSize := 1000000, hasProxy := true }
+
+example :
+    (match (get ToyU.codec (init cfgP 40960 0) .cas hA 3 0 false (.found ⟨[1, 2], false⟩ 3) "r").2 with
+      | .err .e500 => true | _ => false) = true ∧
+    (match (get ToyU.codec (init cfgP 40960 0) .cas hA 3 0 false (.found ⟨[1, 2, 3], false⟩ 3) "r").2 with
+      | .hit h => h.data == [1, 2, 3] | _ => false) = true := by decide +kernel
+
+#print axioms proxy_hit_content
+#print axioms proxy_fault_miss_or_error
+#print axioms proxy_fault_no_leak
+#print axioms put_forwards_once
 end BR.Props.C12
